@@ -461,7 +461,13 @@ func (conn *Connection) GetRemoteAddr() net.Addr {
 }
 
 func (conn *Connection) GetChannels() map[uint16]*Channel {
-	return conn.channels
+	conn.channelsLock.RLock()
+	defer conn.channelsLock.RUnlock()
+	channels := make(map[uint16]*Channel, len(conn.channels))
+	for id, channel := range conn.channels {
+		channels[id] = channel
+	}
+	return channels
 }
 
 func (conn *Connection) GetID() uint64 {
